@@ -9,6 +9,12 @@ placement orders (ties included), any materials, over an arbitrary field:
   C28_painter_inv          inverse-stored arrays (permittivity, permeability) at a cell = inverse of the tier value of
                            the WINNER's material — whatever lies underneath, in whatever order the objects were listed
   C28_painter_cond         conductivity arrays at a cell = tier value of the winner's conductivity × reference spacing
+  C28_painter_eps          inverse permittivity with the per-object sub-pixel switch: at every cell that does not lie in
+                           the uncovered part of a smoothed object's grid slice, the value is that of the winner — the
+                           full tier value if the winner is not smoothed (component by component), its xx entry on all
+                           three diagonals if it is; the switch of one object never changes another object's cells
+  C28_unsmoothed_exact     corollary: winner not smoothed ⇒ exactly its material, whatever other objects request
+  C28_nEps_smooth          any smoothed object forces 3 components; otherwise the count is `tierOf`
   C28_initArrays_*         the same statements for the four arrays `_init_arrays` returns
   C28_volume_lowest        an object at list index 0 with the smallest order (the volume: index 0, order -1000) never
                            wins a cell that another object covers
@@ -384,22 +390,149 @@ theorem C28_painter_cond (objs : List (SObj ι K)) (j : Nat) (hw : IsWinner objs
 
 end field
 
+/-! ### permittivity with the per-object sub-pixel switch -/
+section eps
+variable {ι K : Type} [Field K]
+
+/-- what a covering object leaves at a cell: its tier value, or — for a smoothed multi-material object — its xx
+entry on every stored component (binary fill: the Farjadpour blend collapses to the bulk value) -/
+def tgtEps (n : Nat) (o : SObj ι K) : V9 K :=
+  if o.smooth && !o.uniform then V9.ofFn (invTier n (fun _ => tierVal n o.mat.eps 0))
+  else V9.ofFn (invTier n (tierVal n o.mat.eps))
+
+theorem good_of_ne9 (n : Nat) (hn : n ≠ 9) (f : Nat → K) : Good n (V9.ofFn (invTier n f)) := by
+  unfold Good
+  apply V9.ofFn_congr
+  intro k hk
+  have hget : ∀ (g : Nat → K) i, i < 9 → (V9.ofFn g).get i = g i := fun g i hi => V9.get_ofFn g i hi
+  simp only [invTier, hn, if_false, hget _ k hk]
+  simp
+
+variable (n : Nat) (c : ι)
+
+theorem paintEps_cover (v : V9 K) (o : SObj ι K) (hn : (o.smooth && !o.uniform) = true → n ≠ 9)
+    (h : covers o c = true) : paintEps n c v o = tgtEps n o := by
+  unfold paintEps tgtEps
+  by_cases hs : (o.smooth && !o.uniform) = true
+  · have hn9 : n ≠ 9 := hn hs
+    simp only [hs, if_true]
+    simp only [Bool.and_eq_true, Bool.not_eq_true'] at hs
+    simp only [covers, Bool.and_eq_true, Bool.or_eq_true, hs.2, Bool.false_eq_true, false_or] at h
+    simp only [h.1, h.2, if_true]
+    apply V9.ofFn_congr
+    intro k hk
+    have hget : ∀ (g : Nat → K) i, i < 9 → (V9.ofFn g).get i = g i := fun g i hi => V9.get_ofFn g i hi
+    simp only [invTier, hn9, if_false, hget _ k hk]
+    congr 1
+    simp
+  · simp only [hs, Bool.false_eq_true, if_false]
+    exact paintInv_cover n _ c v o h
+
+theorem paintEps_noncover (v : V9 K) (o : SObj ι K) (h : covers o c = false) (hg : Good n v)
+    (hfoot : (o.smooth && !o.uniform) = true → o.inBox c = true → o.mask c = true) :
+    paintEps n c v o = v := by
+  unfold paintEps
+  by_cases hs : (o.smooth && !o.uniform) = true
+  · simp only [hs, if_true]
+    by_cases hb : o.inBox c = true
+    · exfalso
+      have hm := hfoot hs hb
+      simp [covers, hb, hm] at h
+    · rw [if_neg hb]
+  · simp only [hs, Bool.false_eq_true, if_false]
+    exact paintInv_noncover n _ c v o h hg
+
+/-- **C28 (painter's rule for the permittivity, per-object smoothing switch)**.  `hfoot`: the cell does not lie in
+the part of a smoothed object's grid slice that the object does not cover (there the blend overwrites yy/zz of
+whatever lies underneath with its xx entry — the code warns about it).  Then the value is the winner's, decided by
+the winner's own flag only. -/
+theorem C28_painter_eps (objs : List (SObj ι K)) (j : Nat) (hw : IsWinner objs c j)
+    (hn : n = 9 → ∀ o ∈ objs, (o.smooth && !o.uniform) = false)
+    (hreg : n = 9 → ∀ o ∈ objs, covers o c = true → det3 (tierVal n o.mat.eps) ≠ 0)
+    (hfoot : ∀ o ∈ objs, (o.smooth && !o.uniform) = true → o.inBox c = true → o.mask c = true) :
+    paintAll (paintEps n) objs c = tgtEps n (objs[j]'hw.1) := by
+  have hne := filter_ne_nil_of_cover objs c j hw.1 hw.2.1
+  have hmem : ∀ o, o ∈ sortObjs objs → o ∈ objs := fun o ho => List.mem_mergeSort.mp ho
+  unfold paintAll
+  rw [foldl_paintArr,
+    foldl_last_cover_mem (fun v o => paintEps n c v o) (fun o => covers o c) (tgtEps n) (Good n) _ _ ?_ ?_ ?_ hne]
+  · obtain ⟨j', hw', heq⟩ := sorted_last_cover objs c hne
+    have : j' = j := C28_winner_unique objs c j' j hw' hw
+    subst this
+    rw [heq]
+  · -- covering members
+    intro o ho v hc
+    refine paintEps_cover n c v o ?_ hc
+    intro hs h9
+    rw [hn h9 o (hmem o ho)] at hs
+    exact absurd hs (by simp)
+  · intro o ho v hc hg
+    exact paintEps_noncover n c v o hc hg (hfoot o (hmem o ho))
+  · intro o ho hc
+    unfold tgtEps
+    by_cases hs : (o.smooth && !o.uniform) = true
+    · have h9 : n ≠ 9 := by
+        intro h9
+        rw [hn h9 o (hmem o ho)] at hs
+        exact absurd hs (by simp)
+      simp only [hs, if_true]
+      exact good_of_ne9 n h9 _
+    · simp only [hs, Bool.false_eq_true, if_false]
+      exact good_of_tierVal n _ (fun h9 => hreg h9 o (hmem o ho) hc)
+
+/-- **C28 (un-smoothed objects are exact)**: if the winner of the cell does not request smoothing, the cell carries
+exactly the winner's material at the scene's tier, component by component — whatever the other objects request. -/
+theorem C28_unsmoothed_exact (objs : List (SObj ι K)) (j : Nat) (hw : IsWinner objs c j)
+    (hn : n = 9 → ∀ o ∈ objs, (o.smooth && !o.uniform) = false)
+    (hreg : n = 9 → ∀ o ∈ objs, covers o c = true → det3 (tierVal n o.mat.eps) ≠ 0)
+    (hfoot : ∀ o ∈ objs, (o.smooth && !o.uniform) = true → o.inBox c = true → o.mask c = true)
+    (hj : ((objs[j]'hw.1).smooth && !(objs[j]'hw.1).uniform) = false) :
+    paintAll (paintEps n) objs c = V9.ofFn (invTier n (tierVal n (objs[j]'hw.1).mat.eps)) := by
+  rw [C28_painter_eps n c objs j hw hn hreg hfoot, tgtEps, hj]
+  simp
+
+omit [Field K] in
+/-- cells outside every smoothed object's grid slice satisfy `hfoot` trivially -/
+theorem hfoot_of_outside (objs : List (SObj ι K))
+    (hout : ∀ o ∈ objs, (o.smooth && !o.uniform) = true → o.inBox c = false) :
+    ∀ o ∈ objs, (o.smooth && !o.uniform) = true → o.inBox c = true → o.mask c = true := by
+  intro o ho hs hb
+  rw [hout o ho hs] at hb
+  exact absurd hb (by simp)
+
+end eps
+
 /-! ### the arrays `_init_arrays` returns -/
 section arrays
 variable {ι K : Type} [Field K] (close : K → K → Bool) (cc dt cn : K)
   (objs : List (SObj ι K)) (devs : List (Mat K))
 
-/-- inverse permittivity: stored components at a cell = inverse of the winner's permittivity at the scene's tier -/
+/-- any smoothed (multi-material) object forces three permittivity components; otherwise the count is `tierOf` -/
+theorem C28_nEps_smooth :
+    (initArrays close cc dt cn objs devs).nEps
+      = if objs.any (fun o => o.smooth && !o.uniform) then 3
+        else tierOf close ((allMats objs devs).map (·.eps)) := rfl
+
+/-- inverse permittivity: stored components at a cell = those of the winner (`tgtEps`: the inverse of its tier value,
+or of its xx entry when the winner itself is smoothed), for every cell outside the uncovered part of smoothed slices -/
 theorem C28_initArrays_invEps (c : ι) (j : Nat) (hw : IsWinner objs c j)
-    (hreg : (initArrays close cc dt cn objs devs).nEps = 9 → ∀ o ∈ objs, covers o c = true → det3 o.mat.eps ≠ 0) :
+    (hreg : (initArrays close cc dt cn objs devs).nEps = 9 → ∀ o ∈ objs, covers o c = true → det3 o.mat.eps ≠ 0)
+    (hfoot : ∀ o ∈ objs, (o.smooth && !o.uniform) = true → o.inBox c = true → o.mask c = true) :
     (initArrays close cc dt cn objs devs).invEps c
-      = V9.ofFn (invTier (initArrays close cc dt cn objs devs).nEps
-          (tierVal (initArrays close cc dt cn objs devs).nEps (objs[j]'hw.1).mat.eps)) := by
-  refine C28_painter_inv _ _ c objs j hw ?_
-  intro h9 o ho hc
-  have : tierVal 9 o.mat.eps = o.mat.eps := by simp [tierVal]
-  rw [h9, this]
-  exact hreg h9 o ho hc
+      = tgtEps (initArrays close cc dt cn objs devs).nEps (objs[j]'hw.1) := by
+  refine C28_painter_eps _ c objs j hw ?_ ?_ hfoot
+  · -- nine components only arise without smoothed objects
+    intro h9 o ho
+    split at h9
+    · exact absurd h9 (by decide)
+    · rename_i hany
+      by_contra hso
+      apply hany
+      exact List.any_eq_true.mpr ⟨o, ho, by simpa using hso⟩
+  · intro h9 o ho hc
+    have : tierVal 9 o.mat.eps = o.mat.eps := by simp [tierVal]
+    rw [h9, this]
+    exact hreg h9 o ho hc
 
 /-- inverse permeability, when the scene is magnetic -/
 theorem C28_initArrays_invMu (c : ι) (j : Nat) (hw : IsWinner objs c j)
@@ -579,9 +712,9 @@ def isoMat (e : Rat) : Mat Rat :=
 /-- cells 0..3; volume (order -1000) everywhere; a box (order 1) on cells 1,2; a sphere-like masked object
 (order 1, listed later) whose box is cells 1..3 and whose mask is cells 2,3 -/
 def demo : List (SObj Nat Rat) :=
-  [ { order := -1000, uniform := true, inBox := fun _ => true, mask := fun _ => true, mat := isoMat 1, mats := [isoMat 1] },
-    { order := 1, uniform := true, inBox := fun c => c == 1 || c == 2, mask := fun _ => true, mat := isoMat 2, mats := [isoMat 2] },
-    { order := 1, uniform := false, inBox := fun c => c ≥ 1, mask := fun c => c ≥ 2, mat := isoMat 4, mats := [isoMat 4] } ]
+  [ { order := -1000, uniform := true, inBox := fun _ => true, mask := fun _ => true, mat := isoMat 1, mats := [isoMat 1], smooth := false, nrm2 := fun _ _ => 0 },
+    { order := 1, uniform := true, inBox := fun c => c == 1 || c == 2, mask := fun _ => true, mat := isoMat 2, mats := [isoMat 2], smooth := false, nrm2 := fun _ _ => 0 },
+    { order := 1, uniform := false, inBox := fun c => c ≥ 1, mask := fun c => c ≥ 2, mat := isoMat 4, mats := [isoMat 4], smooth := false, nrm2 := fun _ _ => 0 } ]
 
 example : IsWinner demo 2 2 := ⟨by decide, by decide, by
   intro k hk _
@@ -603,8 +736,39 @@ example : ((initArrays (fun a b : Rat => decide (a = b)) 3 1 2 demo []).invEps 2
     intro k hk _
     have : k < 3 := hk
     interval_cases k <;> simp [demo]⟩
-  rw [C28_initArrays_invEps _ 3 1 2 demo [] 2 2 hw (fun h9 => absurd h9 (by rw [demo_nEps]; decide)), demo_nEps]
-  simp [V9.get_ofFn, invTier, tierVal, demo, isoMat]
+  rw [C28_initArrays_invEps _ 3 1 2 demo [] 2 2 hw (fun h9 => absurd h9 (by rw [demo_nEps]; decide))
+    (by intro o ho hs; simp [demo] at ho; rcases ho with rfl | rfl | rfl <;> simp at hs), demo_nEps]
+  simp [tgtEps, V9.get_ofFn, invTier, tierVal, demo, isoMat]
+/-- a scene with the per-object switch: a smoothed object on cell 1 (slice = mask), an UN-smoothed birefringent object
+on cell 2 -/
+def diagMat (a b d : Rat) : Mat Rat :=
+  { eps := fun k => if k = 0 then a else if k = 4 then b else if k = 8 then d else 0,
+    mu := fun k => if k = 0 ∨ k = 4 ∨ k = 8 then 1 else 0, sigE := fun _ => 0, sigM := fun _ => 0 }
+
+def demoS : List (SObj Nat Rat) :=
+  [ { order := -1000, uniform := true, inBox := fun _ => true, mask := fun _ => true, mat := isoMat 1, mats := [isoMat 1],
+      smooth := false, nrm2 := fun _ _ => 0 },
+    { order := 0, uniform := false, inBox := fun c => c == 1, mask := fun c => c == 1, mat := isoMat 5, mats := [isoMat 5],
+      smooth := true, nrm2 := fun _ _ => 0 },
+    { order := 0, uniform := false, inBox := fun c => c == 2, mask := fun c => c == 2, mat := diagMat 2 3 4,
+      mats := [diagMat 2 3 4], smooth := false, nrm2 := fun _ _ => 0 } ]
+
+theorem demoS_nEps : (initArrays (fun a b : Rat => decide (a = b)) 3 1 2 demoS []).nEps = 3 := by decide +kernel
+
+-- the un-smoothed object keeps xx, yy, zz separately although another object of the scene is smoothed
+example : (List.range 3).map ((initArrays (fun a b : Rat => decide (a = b)) 3 1 2 demoS []).invEps 2).get
+    = [1 / 2, 1 / 3, 1 / 4] := by
+  have hw : IsWinner demoS 2 2 := ⟨by decide, by decide, by
+    intro k hk _
+    have : k < 3 := hk
+    interval_cases k <;> simp [demoS]⟩
+  have hfoot : ∀ o ∈ demoS, (o.smooth && !o.uniform) = true → o.inBox 2 = true → o.mask 2 = true := by
+    intro o ho hs hb
+    simp [demoS] at ho
+    rcases ho with rfl | rfl | rfl <;> simp_all
+  rw [C28_initArrays_invEps _ 3 1 2 demoS [] 2 2 hw (fun h9 => absurd h9 (by rw [demoS_nEps]; decide)) hfoot, demoS_nEps]
+  simp [tgtEps, demoS, V9.get_ofFn, invTier, tierVal, diagMat, List.range, List.range.loop]
+
 example : det3 (isoMat 2).eps ≠ 0 := by decide +kernel
 
 end examples
